@@ -68,15 +68,19 @@ def forbid(key):
       "against independent references; every length 1..600 and 1023..1025, 4095..4097, 65535..65537 x buffer "
       "alignment 0..15 x content classes (zero, 0xff, incrementing, LCG, one non-zero byte / one NUL byte walking "
       "through every position) in exactly-ending heap blocks, repeated at another address with different trailing "
-      "bytes (purity); qhashmd5_file over sizes 0..130, 32767..32769, 65537 x (offset, nbytes) grid. "
+      "bytes (purity); qhashmd5_file over sizes 0..130, 32767..32769, 65537 x (offset, nbytes) grid; "
+      "qhashmd5_file with read()/fstat() wrapped: every plan of <= 2 (thorough 3) deviating answers (1-byte read, half read, "
+      "EIO, EINTR, truncated file, fstat failure) - short reads must still give the RFC digest, a failed call never true. "
       "non-trivial = contains a NUL byte or is longer than one byte",
       ["reference implementations in engines/inputmc/c18.c, anchored at start-up on RFC 1321 / MurmurHash3 / FNV published vectors",
        "little-endian host"],
-      [need("evaluations", 1000000), forbid("anchor_fail")])
+      [need("evaluations", 1000000), need("env_plans_2_deviations", 100), forbid("anchor_fail")],
+      classes=["md5*", "murmur3*", "fnv1*", "asan:*"])
 def c18(tier, seed):
     H = ["inputmc/c18.c"]
     jobs = [Job("small-len1", H, ["small", 1, 0, 256], weight=0.01), Job("small-len2", H, ["small", 2, 0, 256], weight=0.2),
-            Job("file", H, ["file"], weight=2)]
+            Job("file", H, ["file"], weight=2),
+            Job("fileenv", H, ["fileenv", 3 if tier == "thorough" else 2], wraps=["read", "fstat"], cflags=["-DC18_ENV=1"], weight=3)]
     n = 32
     for i in range(n):
         jobs.append(Job("small-len3-%02d" % i, H, ["small", 3, i * 256 // n, (i + 1) * 256 // n], weight=5))
@@ -164,6 +168,7 @@ def c20(tier, seed):
     for i in range(4):
         jobs.append(Job("inifile-%d" % i, H, ["inifile", i, 4], wraps=W, weight=3))
     jobs.append(Job("inilong", H, ["inilong"], wraps=W, weight=1))
+    jobs.append(Job("inimulti", H, ["inimulti", 3 + X], wraps=W, weight=2))
     jobs.append(Job("acobject", H, ["acobject"], wraps=W, weight=1))
     jobs.append(Job("o0-acobject", H, ["acobject"], wraps=W, flavour="o0", weight=1))
     for p in range(3):
@@ -436,7 +441,7 @@ def o0_container_jobs(tier):
       "table region exactly sized and fenced by guard zones; the searches run once more at smaller bounds in an unoptimised, "
       "uninstrumented build with the stack filled with 0xA5 before every case (uninitialised automatic variables)",
       ["UBSan alignment and nonnull-attribute checks are disabled (MurmurHash3 word loads; memcpy(p, NULL, 0) idiom)"],
-      [need("states", 10000), forbid("replay_divergence")], classes=["asan:*", "leak:*", "guard:*"])
+      [need("states", 10000), forbid("replay_divergence")], classes=["asan:*", "leak:*", "guard:*", "scanrm:*"])
 def c11(tier, seed):
     return all_container_jobs(tier) + o0_container_jobs(tier)
 
